@@ -1,6 +1,7 @@
 package main
 
 import (
+	"bytes"
 	"fmt"
 	"math/rand"
 	"strings"
@@ -269,6 +270,13 @@ func produceT[T any](c payloadCodec[T], a *msgArgs) string {
 	var out []byte
 	var err error
 	extra := ""
+	// the read accessors of the produced message object (Bytesify, Signature / Tag, Signatures, Recipients) must agree
+	// with what was emitted; set by each branch, evaluated after a successful produce
+	var accessors func() bool
+	authAgrees := func(auth []byte) bool {
+		_, spans := topMembers(out)
+		return len(spans) >= 4 && bytes.Equal(out[spans[3][0]:spans[3][1]], bstrItem(auth))
+	}
 	switch a.kind {
 	case "sign1":
 		s, e := ks[0].Signer()
@@ -278,6 +286,7 @@ func produceT[T any](c payloadCodec[T], a *msgArgs) string {
 		rs := &recSigner{Signer: s}
 		m := &cose.Sign1Message[T]{Protected: prot, Unprotected: unprot, Payload: payload}
 		out, err = m.SignAndEncode(rs, a.ext)
+		accessors = func() bool { return bytes.Equal(m.Bytesify(), out) && authAgrees(m.Signature()) }
 		a.isRandom = isEcdsaKey(ks[0])
 		extra = " tobe=" + joinHex(rs.seen)
 		if err == nil {
@@ -298,6 +307,7 @@ func produceT[T any](c payloadCodec[T], a *msgArgs) string {
 		}
 		m := &cose.SignMessage[T]{Protected: prot, Unprotected: unprot, Payload: payload}
 		out, err = m.SignAndEncode(ss, a.ext)
+		accessors = func() bool { return bytes.Equal(m.Bytesify(), out) && len(m.Signatures()) == len(ks) }
 		var all [][]byte
 		for _, r := range recs {
 			all = append(all, r.seen...)
@@ -312,6 +322,7 @@ func produceT[T any](c payloadCodec[T], a *msgArgs) string {
 		if a.kind == "mac0" {
 			m := &cose.Mac0Message[T]{Protected: prot, Unprotected: unprot, Payload: payload}
 			out, err = m.ComputeAndEncode(rm, a.ext)
+			accessors = func() bool { return bytes.Equal(m.Bytesify(), out) && authAgrees(m.Tag()) }
 			if err == nil {
 				extra = " prot=" + hdrDump(m.Protected) + " unprot=" + hdrDump(m.Unprotected)
 			}
@@ -323,6 +334,9 @@ func produceT[T any](c payloadCodec[T], a *msgArgs) string {
 				}
 			}
 			out, err = m.ComputeAndEncode(rm, a.ext)
+			accessors = func() bool {
+				return bytes.Equal(m.Bytesify(), out) && authAgrees(m.Tag()) && len(m.Recipients()) == len(mkRecipients(a.recips))
+			}
 		}
 		extra = " tobe=" + joinHex(rm.seen) + extra
 	case "encrypt0", "encrypt":
@@ -343,6 +357,7 @@ func produceT[T any](c payloadCodec[T], a *msgArgs) string {
 		if a.kind == "encrypt0" {
 			m := &cose.Encrypt0Message[T]{Protected: prot, Unprotected: unprot, Payload: payload}
 			out, err = m.EncryptAndEncode(re, a.ext)
+			accessors = func() bool { return bytes.Equal(m.Bytesify(), out) }
 			up = m.Unprotected
 		} else {
 			m := &cose.EncryptMessage[T]{Protected: prot, Unprotected: unprot, Payload: payload}
@@ -352,6 +367,9 @@ func produceT[T any](c payloadCodec[T], a *msgArgs) string {
 				}
 			}
 			out, err = m.EncryptAndEncode(re, a.ext)
+			accessors = func() bool {
+				return bytes.Equal(m.Bytesify(), out) && len(m.Recipients()) == len(mkRecipients(a.recips))
+			}
 			up = m.Unprotected
 		}
 		a.isRandom = !given
@@ -376,6 +394,9 @@ func produceT[T any](c payloadCodec[T], a *msgArgs) string {
 	}
 	if err != nil {
 		return errClass(err)
+	}
+	if accessors != nil && !accessors() {
+		return "ACCESSOR-DISAGREES " + hx(out)
 	}
 	if a.isRandom {
 		a.data = out
